@@ -16,3 +16,11 @@ func room(e *Encoder, n int) bool {
 
 // hasKey: the minimal encoding of key(num, wt) sits at p[o:].
 func hasKey(p []byte, o int, num int, wt WireType) bool { return isVarintOf(p, o, keyOf(num, int(wt))) }
+
+// keyBefore: the minimal key of (num, wt) ends exactly at offset o - the situation right
+// after DecodeTag returned (num, wt) for a key a conforming writer produced.
+func keyBefore(p []byte, o int, num int, wt WireType) bool {
+	return validNum(num) && int(wt) >= 0 && int(wt) <= 7 && o >= keyLen(num, wt) && o <= len(p) && hasKey(p, o-keyLen(num, wt), num, wt)
+}
+
+func lemma_key_before(p []byte, o int, num int, wt WireType) {}
